@@ -23,8 +23,8 @@ from qv.lib import Rec, derive_seed
 
 LEVEL = "exploration"
 RULE = (
-    "one evaluation = one resume from restart point k of one (driver, move table, seed) run, compared step by step with the uninterrupted run; restart points quick: "
-    "{0,1,5,n-1,n}, thorough: every k in 0..n; distinct by (workload, k); non-trivial when the remaining steps contain at least one accepted and one rejected trial "
+    "one evaluation = one resume from restart point k of one (driver, move table, seed) run, compared step by step with the uninterrupted run; restart points: "
+    "every k in 0..n (quick n=12, thorough n=40); distinct by (workload, k); non-trivial when the remaining steps contain at least one accepted and one rejected trial "
     "(force bias: any step)"
 )
 ASSUMPTIONS = [
@@ -47,6 +47,8 @@ def workloads(tier):
         "canonical-composites": {"driver": "Canonical", "T": 900.0, "cycles": 2, "atoms": mols, "calc": {"kind": "soft"}, "table": [{"name": "rot", "move": {"t": "D", "op": {"t": "Rotation"}}}, {"name": "dd", "move": {"t": "*", "part": D("Box", labelmod="gap"), "n": 2}, "probability": 2.0, "criteria": "canonical"}, {"name": "mix", "move": {"t": "+", "parts": [D("Sphere"), {"t": "D", "op": [{"t": "Ball", "step": 0.2}, {"t": "Rotation"}]}], "assoc": "right"}, "interval": 2, "criteria": "canonical"}, {"name": "tr", "move": {"t": "D", "op": {"t": "TranslationRotation"}, "default_label": 0}, "criteria": "runs"}]},
         "hamiltonian": {"driver": "HamiltonianCanonical", "T": 500.0, "cycles": 2, "atoms": {"kind": "gas", "n": 3, "edge": 6.0, "pbc": False, "seed": 5, "extras": ["masses", "momenta"]}, "calc": {"kind": "harmonic", "k": 1.5, "q": 0.5}, "table": [{"name": "h", "move": {"t": "H", "dt": 2.5, "steps": 6}}, {"name": "d", "move": D()}]},
         "isobaric": {"driver": "Isobaric", "T": 800.0, "P": 0.01, "cycles": 3, "atoms": {**gas, "triclinic": True}, "calc": {"kind": "soft"}, "table": [{"name": "c", "move": {"t": "C", "op": {"t": "Aniso", "mv": 0.05, "mask": mask}, "scale": False}}, {"name": "i", "move": {"t": "C", "op": {"t": "Iso", "mv": 0.04}}}, {"name": "d", "move": D()}]},
+        # steps whose only accepted trials are cell moves that leave the Cartesian positions alone (scale_atoms=False)
+        "isobaric-cell-only-steps": {"driver": "Isobaric", "T": 2000.0, "P": 0.005, "cycles": 2, "atoms": {**gas, "triclinic": True}, "calc": {"kind": "soft"}, "table": [{"name": "c", "move": {"t": "C", "op": {"t": "Aniso", "mv": 0.03}, "scale": False}}, {"name": "s", "move": {"t": "C", "op": {"t": "Shape", "mv": 0.03}, "scale": False}, "probability": 0.5}, {"name": "d", "move": D(), "interval": 4}]},
         "isotension": {"driver": "Isotension", "T": 800.0, "P": 0.01, "S": [[0.01, 0.002, 0], [0.002, 0.0, 0], [0, 0, -0.01]], "cycles": 3, "atoms": gas, "calc": {"kind": "soft"}, "table": [{"name": "c", "move": {"t": "C", "op": {"t": "Shape", "mv": 0.05}}}, {"name": "cd", "move": {"t": "+", "parts": [{"t": "C", "op": {"t": "Iso", "mv": 0.03}}, D("Box")]}, "criteria": "isotension"}, {"name": "d", "move": D("Box")}]},
         "grand-atomic": {"driver": "GrandCanonical", "T": 1500.0, "mu": -0.05, "cycles": 3, "species": 1, "atoms": gas, "calc": {"kind": "soft"}, "table": [{"name": "x", "move": {"t": "E", "bias": 0.6}}, {"name": "d", "move": D(labelmod="gap", default_label=0)}, {"name": "b", "move": D("Box", default_label=-1)}]},
         "grand-molecular": {"driver": "GrandCanonical", "T": 2500.0, "mu": -0.02, "cycles": 3, "species": 2, "atoms": mols, "calc": {"kind": "soft"}, "table": [{"name": "x", "move": {"t": "E", "op": {"t": "TranslationRotation"}, "labelmod": "rev"}}, {"name": "d", "move": {"t": "D", "op": {"t": "TranslationRotation"}}}, {"name": "r", "move": {"t": "D", "op": {"t": "Rotation"}, "labelmod": "someneg"}}]},
@@ -63,7 +65,7 @@ def plan(tier, seed):
     specs = []
     for name, w in workloads(tier).items():
         for s in range(2 if tier == "quick" else 4):
-            specs.append({"name": f"{name}-s{s}", "wname": name, "w": w, "n": n, "seed": seed, "s": s, "all_k": tier != "quick"})
+            specs.append({"name": f"{name}-s{s}", "wname": name, "w": w, "n": n, "seed": seed, "s": s, "all_k": True})
     return specs
 
 
